@@ -1,0 +1,160 @@
+//go:build verif
+// +build verif
+
+package rac
+
+// Exports for the /verif C13 correspondence check (rac.Writer / ChunkWriter vs.
+// the Lean model). Compiled only with the "verif" build tag; nothing here
+// changes the package's behaviour.
+
+import (
+	"bytes"
+)
+
+// VerifErrWord names the package's error values ("" for anything else).
+func VerifErrWord(err error) string {
+	switch err {
+	case nil:
+		return "nil"
+	case ErrCodecWriterDoesNotSupportCChunkSize:
+		return "no-cchunksize-support"
+	case errAlreadyClosed:
+		return "already-closed"
+	case errCChunkSizeIsTooSmall:
+		return "cchunksize-too-small"
+	case errILAEndTempFile:
+		return "ila-end-tempfile"
+	case errILAStartTempFile:
+		return "ila-start-tempfile"
+	case errInconsistentCompressedSize:
+		return "inconsistent-compressed-size"
+	case errInvalidCPageSize:
+		return "invalid-cpagesize"
+	case errInvalidCodec:
+		return "invalid-codec"
+	case errInvalidCodecWriter:
+		return "invalid-codecwriter"
+	case errInvalidWriter:
+		return "invalid-writer"
+	case errTooManyChunks:
+		return "too-many-chunks"
+	case errTooManyResources:
+		return "too-many-resources"
+	case errTooMuchInput:
+		return "too-much-input"
+	case errInternalArityIsTooLarge:
+		return "internal-arity-too-large"
+	case errInternalShortCSize:
+		return "internal-short-csize"
+	}
+	if err.Error() == "rac: TODO: support writing multiple Codecs" {
+		return "multiple-codecs"
+	}
+	return ""
+}
+
+// VerifWriteBuffer wraps the unexported writeBuffer.
+type VerifWriteBuffer struct{ b writeBuffer }
+
+func VerifNewWriteBuffer(prev []byte, curr []byte, p int) *VerifWriteBuffer {
+	return &VerifWriteBuffer{b: writeBuffer{prev: prev, curr: curr, p: p}}
+}
+
+func (v *VerifWriteBuffer) State() (prev []byte, curr []byte, p int) {
+	return v.b.prev, v.b.curr, v.b.p
+}
+func (v *VerifWriteBuffer) Extend(curr []byte)               { v.b.extend(curr) }
+func (v *VerifWriteBuffer) Length() uint64                   { return v.b.length() }
+func (v *VerifWriteBuffer) Peek(n uint64) ([]byte, []byte)   { return v.b.peek(n) }
+func (v *VerifWriteBuffer) Advance(n uint64)                 { v.b.advance(n) }
+func (v *VerifWriteBuffer) AdvancePastLeadingZeroes() uint64 { return v.b.advancePastLeadingZeroes() }
+func (v *VerifWriteBuffer) Compact()                         { v.b.compact() }
+
+func VerifCalcCLength(primarySize int) uint64 { return calcCLength(primarySize) }
+
+func VerifStripTrailingZeroes(b []byte) []byte { return stripTrailingZeroes(b) }
+
+// VerifNode is an exported copy of wNode.
+type VerifNode struct {
+	DRangeSize     uint64
+	Children       []VerifNode
+	Resources      []int
+	COffsetCLength uint64
+	Secondary      OptResource
+	Tertiary       OptResource
+	Codec          Codec
+}
+
+func verifToWNodes(ls []VerifNode) []wNode {
+	out := make([]wNode, len(ls))
+	for i, l := range ls {
+		out[i] = wNode{
+			dRangeSize:     l.DRangeSize,
+			cOffsetCLength: l.COffsetCLength,
+			secondary:      l.Secondary,
+			tertiary:       l.Tertiary,
+			codec:          l.Codec,
+		}
+		if len(l.Children) != 0 {
+			out[i].children = verifToWNodes(l.Children)
+		}
+		if len(l.Resources) != 0 {
+			out[i].resources = append([]int(nil), l.Resources...)
+		}
+	}
+	return out
+}
+
+func verifFromWNode(n *wNode) VerifNode {
+	v := VerifNode{
+		DRangeSize:     n.dRangeSize,
+		COffsetCLength: n.cOffsetCLength,
+		Secondary:      n.secondary,
+		Tertiary:       n.tertiary,
+		Codec:          n.codec,
+	}
+	if len(n.resources) != 0 {
+		v.Resources = append([]int(nil), n.resources...)
+	}
+	if len(n.children) != 0 {
+		v.Children = make([]VerifNode, len(n.children))
+		for i := range n.children {
+			v.Children[i] = verifFromWNode(&n.children[i])
+		}
+	}
+	return v
+}
+
+// VerifGather runs gather on the given leaf nodes, as ChunkWriter.Close does
+// for a file whose chunks all have the given codec.
+func VerifGather(leaves []VerifNode, codec Codec) VerifNode {
+	root := gather(verifToWNodes(leaves), codec.isLong())
+	return verifFromWNode(&root)
+}
+
+// VerifCalcEncodedSize runs gather, then calcEncodedSize(0, atEnd) on the root.
+func VerifCalcEncodedSize(leaves []VerifNode, codec Codec, atEnd bool) (VerifNode, uint64) {
+	root := gather(verifToWNodes(leaves), codec.isLong())
+	size := root.calcEncodedSize(0, atEnd)
+	return verifFromWNode(&root), size
+}
+
+// VerifWriteIndex runs gather, calcEncodedSize(0, atEnd) and then
+// nodeWriter.writeIndex with the given nodeWriter fields, returning the bytes
+// handed to the underlying writer.
+func VerifWriteIndex(leaves []VerifNode, codec Codec, atEnd bool,
+	cFileSize uint64, dataCOffset uint64, indexCOffset uint64, resourcesCOffCLens []uint64) ([]byte, error) {
+
+	root := gather(verifToWNodes(leaves), codec.isLong())
+	root.calcEncodedSize(0, atEnd)
+	buf := &bytes.Buffer{}
+	nw := &nodeWriter{
+		w:                  buf,
+		cFileSize:          cFileSize,
+		dataCOffset:        dataCOffset,
+		indexCOffset:       indexCOffset,
+		resourcesCOffCLens: resourcesCOffCLens,
+	}
+	err := nw.writeIndex(&root, atEnd)
+	return buf.Bytes(), err
+}
